@@ -1,7 +1,10 @@
 //go:build verif
 
-// Contracts for the generated bindings of this package (property C05), derived mechanically by
-// /verif/tools/gencontracts.py from the generated source; checked by /verif/govc. Comments only.
+// Contracts for the generated bindings of this package, derived mechanically by /verif/tools/gencontracts.py;
+// checked by /verif/govc. Comments only. C05 (decoder totality): from the shape of the generated readers.
+// C03 (schema encoding): from the IDL file of the package - for a struct whose members are all scalars or
+// strings, WriteTo appends exactly the members in ascending tag order, each under its declared tag and wire
+// type, required ones always, optional ones unless equal to their declared default.
 
 package nodef
 
@@ -29,3 +32,17 @@ package nodef
 //@   ensures [C05] readBuf.buf.i >= p0
 //@   ensures [C05] validR(readBuf)
 //@   safety [C05]
+//
+//@ func (*ServerInfo).WriteTo
+//@   requires st != nil && validB(buf) && len(st.Application) < 4294967296 && len(st.ServerName) < 4294967296 && len(st.Adapter) < 4294967296
+//@   let e0 = buf.buf.bytes
+//@   let e1 = e0 ++ encString(0, st.Application)
+//@   let e2 = e1 ++ encString(1, st.ServerName)
+//@   let e3 = e2 ++ encInt32(2, st.Pid)
+//@   let e4 = (st.Adapter != "" ? e3 ++ encString(3, st.Adapter) : e3)
+//@   let pre = e4
+//@   opaque head encInt8 encInt16 encInt32 encInt64 encString encBool
+//@   perreturn
+//@   modifies buf.buf.bytes
+//@   ensures [C03] err == nil && buf.buf.bytes == pre
+//@   safety [C03]
